@@ -120,7 +120,61 @@ def c10_shapes(tier):
         return [(f, 2, 0) for f in range(5)] + [(0, 2, 1), (3, 2, 1)]
     return [(f, 3, 0) for f in range(5)] + [(f, 2, 1) for f in range(5)] + [(3, 3, 1), (4, 3, 1)]
 
+def c12_shapes(fam, tier):
+    import itertools
+    out = []
+    if fam == 'flow':
+        full = list(itertools.product(range(4), range(3), range(4), range(3), range(6), range(2)))
+        if tier != 'quick':
+            return full
+        for i, (a, b, c) in enumerate(itertools.product(range(4), range(3), range(4))):
+            out.append((a, b, c, i % 3, (i * 5 + a) % 6, 1 if i % 17 == 0 else 0))
+        return out
+    if fam == 'breaker':
+        full = list(itertools.product(range(4), range(3), range(6), range(2)))
+        if tier != 'quick':
+            return full
+        for i, (a, b) in enumerate(itertools.product(range(4), range(3))):
+            out.append((a, b, (i * 5) % 6, 0))
+            out.append((a, b, (i * 5 + 3) % 6, 1 if i % 5 == 0 else 0))
+        return out
+    if fam == 'hotspot':
+        full = list(itertools.product(range(2), range(3), range(7), range(3), (0, 1, 3), range(2), range(2)))
+        if tier != 'quick':
+            return full
+        for i, (a, b, c) in enumerate(itertools.product(range(2), range(3), range(7))):
+            out.append((a, b, c, i % 3, (0, 1, 3)[(i // 2) % 3], i % 2, 1 if i % 19 == 0 else 0))
+        return out
+    if fam == 'iso_sys':
+        full = [(0, 0, e, 0, r) for e in range(3) for r in range(2)] + [(m, st, e, t, 0) for m in range(1, 6) for st in range(2) for e in (0, 2) for t in range(6)]
+        if tier != 'quick':
+            return full
+        out = [(0, 0, e, 0, r) for e in range(3) for r in range(2)]
+        for i, (m, st) in enumerate(itertools.product(range(1, 6), range(2))):
+            out.append((m, st, (0, 2)[i % 2], (i * 5) % 6, 0))
+            out.append((m, st, (0, 2)[(i + 1) % 2], (i * 5 + 2) % 6, 0))
+        return out
+
 PROPS = {
+    'C12': {
+        'level': 'model_checking',
+        'bounds': 'one rule per run; enum-valued fields of all five families as shapes (thorough: the full cross product, quick: a covering sample): flow calculate x control x relation '
+                  '(incl. Custom(7), an associated resource never seen, an empty associated name), breaker strategies incl. Custom, hotspot metric x control x param index -3..3 x keyed, system metric x strategy; '
+                  'thresholds from {-1, 0, 0.5, 1, 1e6, NaN}; every other numeric field symbolic over three boundary values (0 / 1 / large); loading entry point in {load-all, load-for-resource, append}; '
+                  'empty resource names; then two entries (batch in {0,1,1e6}, 0/1/3 args, attachments) with exits 700 ms later, then a health probe of every manager',
+        'assumptions': ['no panic path may exist: a panic found symbolically is replayed natively (exit code 101)', 'log level Off; formatting opaque',
+                        'system memory size modelled as 64 GiB (memory-adaptive water marks in the harness are far below)'],
+        'scenarios': [
+            {'name': 'c12_flow', 'shapes': {'quick': c12_shapes('flow', 'quick'), 'thorough': c12_shapes('flow', 'thorough')},
+             'witnesses': ['valid-rule', 'invalid-rule', 'entry-passed', 'entry-blocked'], 'selftest': {'quick': 10, 'thorough': 60}},
+            {'name': 'c12_breaker', 'shapes': {'quick': c12_shapes('breaker', 'quick'), 'thorough': c12_shapes('breaker', 'thorough')},
+             'witnesses': ['valid-rule', 'invalid-rule'], 'selftest': {'quick': 6, 'thorough': 40}},
+            {'name': 'c12_hotspot', 'shapes': {'quick': c12_shapes('hotspot', 'quick'), 'thorough': c12_shapes('hotspot', 'thorough')},
+             'witnesses': ['valid-rule', 'invalid-rule', 'entry-passed', 'entry-blocked'], 'selftest': {'quick': 10, 'thorough': 60}},
+            {'name': 'c12_iso_sys', 'shapes': {'quick': c12_shapes('iso_sys', 'quick'), 'thorough': c12_shapes('iso_sys', 'thorough')},
+             'witnesses': ['valid-rule', 'invalid-rule'], 'selftest': {'quick': 6, 'thorough': 40}},
+        ],
+    },
     'C10': {
         'level': 'model_checking',
         'bounds': 'five managers; pool of two valid rules on r1, one on r2, one invalid on r1 and (selected shapes) a rule equal to the first under another id; '
